@@ -567,7 +567,7 @@ func registerAll() {
 
 func TestPropInheritance(t *testing.T) {
 	registerAll()
-	ev.Rapid(t, "inheritance", ev.N(2500, 25000), genCase, judged)
+	ev.Rapid(t, "inheritance", ev.N(8000, 25000), genCase, judged)
 }
 
 func TestPropRegressions(t *testing.T) {
